@@ -604,6 +604,8 @@ type FuncContract struct {
 	Props    []string // properties this contract contributes to (from "props" clause)
 	Ghost    []Param  // ghost parameters
 	CallGhost []Clause // "call f#k ghost name = expr"
+	After     []Clause // "after f#k ghost $x = expr" : ghost assignment right after a call site
+	Entry     []Clause // "entry ghost $x = expr"     : ghost assignment at function entry
 	Asserts  []Clause
 }
 
@@ -650,7 +652,7 @@ func NewContracts() *Contracts {
 var clauseKeywords = map[string]bool{
 	"requires": true, "ensures": true, "modifies": true, "loop": true, "decreases": true,
 	"abstract": true, "mode": true, "reveal": true, "use": true, "ghost": true, "panics": true,
-	"props": true, "call": true, "pure": true, "assert": true, "opt": true,
+	"props": true, "call": true, "pure": true, "assert": true, "opt": true, "after": true, "entry": true,
 }
 
 // ParseContractFile reads //@ lines of a file.
@@ -1115,6 +1117,34 @@ func parseClause(fc *FuncContract, s string, pos string) error {
 			return err
 		}
 		fc.CallGhost = append(fc.CallGhost, Clause{Kind: "callghost", Name: strings.TrimSpace(fs[0]) + "|" + strings.TrimSpace(kv[0]), Src: kv[1], E: e, Pos: pos})
+	case "after":
+		// after NAME[#k] ghost $x = expr
+		fs := strings.SplitN(rest, " ghost ", 2)
+		if len(fs) != 2 {
+			return fmt.Errorf("after f#k ghost $x = e")
+		}
+		kv := strings.SplitN(fs[1], "=", 2)
+		if len(kv) != 2 {
+			return fmt.Errorf("after f#k ghost $x = e")
+		}
+		e, err := ParseExpr(kv[1])
+		if err != nil {
+			return err
+		}
+		fc.After = append(fc.After, Clause{Kind: "after", Name: strings.TrimSpace(fs[0]) + "|" + strings.TrimSpace(kv[0]), Src: kv[1], E: e, Pos: pos})
+	case "entry":
+		if !strings.HasPrefix(rest, "ghost ") {
+			return fmt.Errorf("entry ghost $x = e")
+		}
+		kv := strings.SplitN(rest[6:], "=", 2)
+		if len(kv) != 2 {
+			return fmt.Errorf("entry ghost $x = e")
+		}
+		e, err := ParseExpr(kv[1])
+		if err != nil {
+			return err
+		}
+		fc.Entry = append(fc.Entry, Clause{Kind: "entry", Name: strings.TrimSpace(kv[0]), Src: kv[1], E: e, Pos: pos})
 	case "props":
 		fc.Props = append(fc.Props, strings.Fields(rest)...)
 	case "abstract", "mode", "reveal", "use", "panics", "pure", "opt":
